@@ -41,6 +41,8 @@ package http3
 // body must arrive whole and the trailer section must be accepted.
 
 import (
+	"bytes"
+	"context"
 	"encoding/json"
 	"fmt"
 	"io"
@@ -48,6 +50,9 @@ import (
 	"net/http"
 	"strings"
 
+	"github.com/quic-go/qpack"
+
+	quic "github.com/refraction-networking/uquic"
 	"github.com/refraction-networking/uquic/internal/verifmc/explore"
 )
 
@@ -62,7 +67,15 @@ const (
 	c19OpAddHdr
 	c19OpAddTrailer
 	c19OpSetTrailerVal
+	// Header().Set("Content-Length", ..) calls (part writer-response-server only)
+	c19OpCL10
+	c19OpCL0
+	c19OpCLNil
+	c19OpCLBad
 )
+
+// the calls part writer-response-ops enumerates (the first c19RspOpsBase entries of c19RspOps)
+const c19RspOpsBase = c19OpSetTrailerVal + 1
 
 // The alphabet of handler calls. 4096 = maxSmallResponseSize: the smallest Write that cannot be
 // buffered and therefore serialises the header by itself; 5 bytes stay in the buffer.
@@ -70,6 +83,8 @@ var c19RspOps = []string{
 	"WriteHeader(103)", "WriteHeader(200)", "WriteHeader(404)", "WriteHeader(204)",
 	"Write(5 bytes)", "Write(4096 bytes)", "Flush()", "Header().Add(\"X-B\", \"b\")",
 	"Header().Add(\"Trailer\", \"X-V\")", "Header().Set(\"X-V\", \"vv\")",
+	"Header().Set(\"Content-Length\", \"10\")", "Header().Set(\"Content-Length\", \"0\")",
+	"Header()[\"Content-Length\"] = nil", "Header().Set(\"Content-Length\", \"abc\")",
 }
 
 var c19Body4k = []byte(strings.Repeat("x", maxSmallResponseSize))
@@ -82,6 +97,14 @@ type c19RspOpsCase struct {
 	Ops     []int `json:"ops"`
 	Head    bool  `json:"head"`
 	Trailer int   `json:"trailer"` // index into c19RspTrailers
+	// Server: the handler is run by the real RawServerConn.handleRequestStream on a real quic.Stream
+	// (part writer-response-server) instead of on a bare responseWriter
+	Server bool `json:"server,omitempty"`
+}
+
+func (c c19RspOpsCase) prefix(k int) c19RspOpsCase {
+	c.Ops = c.Ops[:k]
+	return c
 }
 
 func (c c19RspOpsCase) human() []string {
@@ -90,7 +113,7 @@ func (c c19RspOpsCase) human() []string {
 		l = append(l, c19RspOps[o])
 	}
 	return []string{
-		fmt.Sprintf("handler (HEAD=%v), header Link / Date / Content-Type set: %s", c.Head, strings.Join(l, "; ")),
+		fmt.Sprintf("handler (HEAD=%v, run by the real server request handling=%v), header Link / Date / Content-Type set: %s", c.Head, c.Server, strings.Join(l, "; ")),
 		"trailers: " + c19RspTrailers[c.Trailer],
 	}
 }
@@ -133,6 +156,18 @@ func (c c19RspOpsCase) script(h http.Header, writeHeader func(int), write func([
 			// a header field of the sections written while X-V is not announced, a trailer value otherwise
 			h["X-V"] = []string{"vv"}
 			changed()
+		case c19OpCL10:
+			h["Content-Length"] = []string{"10"}
+			changed()
+		case c19OpCL0:
+			h["Content-Length"] = []string{"0"}
+			changed()
+		case c19OpCLNil:
+			h["Content-Length"] = nil // "to suppress automatic response headers, set their value to nil" (net/http)
+			changed()
+		case c19OpCLBad:
+			h["Content-Length"] = []string{"abc"}
+			changed()
 		}
 	}
 	if announcedV {
@@ -152,6 +187,8 @@ type c19RspOpsFacts struct {
 	status                                   int
 	implicit                                 bool
 	byHandler                                bool // the header was complete before the handler returned
+	autoCL                                   bool // the server may add a Content-Length of its own
+	handlerCL                                string
 }
 
 // the model: the message the call sequence stands for (see the file comment)
@@ -162,7 +199,14 @@ func (c c19RspOpsCase) expect() (sections []c19RspExpect, body string, facts c19
 	// the Trailer field of every state the header map had from the final status on: [0] belongs to
 	// final.fields, [1+j] to final.alts[j]
 	var announced [][]string
+	var cls [][]string // the well-formed Content-Length values of those states
+	noteCL := func() {
+		if v := h["Content-Length"]; len(v) > 0 && c19CLClass(v) == "well-formed" {
+			cls = append(cls, v)
+		}
+	}
 	finish := func(status int, implicit bool) {
+		noteCL()
 		complete = true
 		facts.status, facts.implicit = status, implicit
 		final = c19SectionOf(status, c19RspHeaderFields(h, status), h)
@@ -198,8 +242,15 @@ func (c c19RspOpsCase) expect() (sections []c19RspExpect, body string, facts c19
 		func() {
 			if complete {
 				facts.lateAdd++
-				final.alts = append(final.alts, c19RspHeaderFields(h, facts.status))
+				noteCL()
+				alt := c19SectionOf(facts.status, c19RspHeaderFields(h, facts.status), h)
+				final.alts = append(final.alts, alt.fields)
 				announced = append(announced, append([]string(nil), h["Trailer"]...))
+				if alt.withoutCL != nil {
+					// a malformed Content-Length may be left out of this state of the map as well
+					final.alts = append(final.alts, alt.withoutCL)
+					announced = append(announced, append([]string(nil), h["Trailer"]...))
+				}
 			} else if facts.interim > 0 {
 				facts.changedAfter1xx = true
 			}
@@ -218,11 +269,80 @@ func (c c19RspOpsCase) expect() (sections []c19RspExpect, body string, facts c19
 		}
 		return c19RspTrailerOf(hk)
 	}
+	for _, v := range cls {
+		if c19ModelCL(c19View{HasCL: true, CL: v[0]}) != int64(len(body)) {
+			final.bodyUnjudged = true
+		}
+	}
 	final.trailer = trailerOf(announced[0])
 	for _, a := range announced[1:] {
 		final.altTrailers = append(final.altTrailers, trailerOf(a))
 	}
+	// The automatic Content-Length (server_conn.go, like net/http's): when the handler's header map
+	// holds no Content-Length entry at the end of the handler (or one the writer may leave out because
+	// it is malformed), the statement is silent about a Content-Length the server adds by itself. An
+	// entry without values is an entry: the handler suppresses the field. A well-formed value the
+	// handler has set at that moment is a field of the message and must come back unchanged.
+	cl, haveCL := h["Content-Length"]
+	facts.autoCL = c.Server && (!haveCL || (len(cl) > 0 && c19CLClass(cl) != "well-formed"))
+	facts.handlerCL = "none"
+	switch {
+	case haveCL && len(cl) == 0:
+		facts.handlerCL = "suppressed"
+	case haveCL:
+		facts.handlerCL = c19CLClass(cl)
+	}
 	return append(sections, final), body, facts
+}
+
+// c19WithAutoCL adds, for every field list the final section may show that has no Content-Length,
+// the same list with the Content-Length the server put on the wire by itself (any value: which
+// number the server announces is not this property's business, the parser has to accept it).
+func c19WithAutoCL(sec c19RspExpect, wire []byte, nth int) c19RspExpect {
+	r := bytes.NewReader(wire)
+	var emitted []c19Field
+	for j := 0; j <= nth; j++ {
+		b, _, bad := c19TryReadHeadersFrame(r)
+		if bad != "" {
+			return sec
+		}
+		emitted = c19DecodeAll(b)
+	}
+	var auto []c19Field
+	for _, f := range emitted {
+		if f.N == "content-length" {
+			auto = append(auto, f)
+		}
+	}
+	if len(auto) != 1 {
+		return sec
+	}
+	hasCL := func(fs []c19Field) bool {
+		for _, f := range fs {
+			if f.N == "content-length" {
+				return true
+			}
+		}
+		return false
+	}
+	type cand struct {
+		fs []c19Field
+		tr http.Header
+	}
+	cands := []cand{{sec.fields, sec.trailer}}
+	if sec.withoutCL != nil {
+		cands = append(cands, cand{sec.withoutCL, sec.trailer})
+	}
+	for j, a := range sec.alts {
+		cands = append(cands, cand{a, sec.altTrailers[j]})
+	}
+	for _, cd := range cands {
+		if !hasCL(cd.fs) {
+			sec.alts = append(sec.alts, append(append([]c19Field(nil), cd.fs...), auto[0]))
+			sec.altTrailers = append(sec.altTrailers, cd.tr)
+		}
+	}
+	return sec
 }
 
 func (f c19RspOpsFacts) history() string {
@@ -258,10 +378,10 @@ func c19RunRspOps(c c19RspOpsCase) (outcome string, fail *explore.Fail) {
 		return out, nil
 	}
 	for k := 0; k <= len(c.Ops); k++ {
-		p := c19RspOpsCase{Ops: c.Ops[:k], Head: c.Head, Trailer: c.Trailer}
+		p := c.prefix(k)
 		at := "@handler-end"
 		if k > 0 {
-			_, _, before := c19RspOpsCase{Ops: c.Ops[:k-1], Head: c.Head, Trailer: c.Trailer}.expect()
+			_, _, before := c.prefix(k - 1).expect()
 			at = "@" + c19RspOps[c.Ops[k-1]] + "/before-final"
 			if before.byHandler {
 				at = "@" + c19RspOps[c.Ops[k-1]] + "/after-final"
@@ -279,16 +399,31 @@ func c19RunRspOps(c c19RspOpsCase) (outcome string, fail *explore.Fail) {
 }
 
 func c19RunRspOpsAt(c c19RspOpsCase, at string) (outcome string, fail *explore.Fail) {
-	fake := &c19FakeStream{}
-	str := newStream(fake, nil, nil, func(io.Reader, *headersFrame) error { return nil }, nil)
-	rw := newResponseWriter(str, nil, c.Head, slog.New(slog.DiscardHandler))
-	c.script(rw.Header(), rw.WriteHeader, func(b []byte) { rw.Write(b) }, rw.Flush, func() {})
-	sentEarly := rw.headerWritten // classification only
-	// what the server does when the handler returns (server_conn.go)
-	rw.Flush()
-	rw.flushTrailers()
+	var wire []byte
+	var sentEarly bool // classification only
+	pfx := "writer-response-ops"
+	if c.Server {
+		pfx = "writer-response-server"
+		var f *explore.Fail
+		if wire, sentEarly, f = c19ServeRspOps(c, at); f != nil {
+			return "", f
+		}
+	} else {
+		fake := &c19FakeStream{}
+		str := newStream(fake, nil, nil, func(io.Reader, *headersFrame) error { return nil }, nil)
+		rw := newResponseWriter(str, nil, c.Head, slog.New(slog.DiscardHandler))
+		c.script(rw.Header(), rw.WriteHeader, func(b []byte) { rw.Write(b) }, rw.Flush, func() {})
+		sentEarly = rw.headerWritten
+		// what the server does when the handler returns (server_conn.go)
+		rw.Flush()
+		rw.flushTrailers()
+		wire = append([]byte(nil), fake.out.Bytes()...)
+	}
 	sections, wantBody, facts := c.expect()
-	out, f := c19JudgeRspWire("writer-response-ops", at, append([]byte(nil), fake.out.Bytes()...), true, sections, wantBody)
+	if facts.autoCL {
+		sections[len(sections)-1] = c19WithAutoCL(sections[len(sections)-1], wire, len(sections)-1)
+	}
+	out, f := c19JudgeRspWire(pfx, at, wire, true, sections, wantBody)
 	if f != nil {
 		return "", f
 	}
@@ -307,7 +442,112 @@ func c19RunRspOpsAt(c c19RspOpsCase, at string) (outcome string, fail *explore.F
 	if facts.implicit {
 		status += " (implicit)"
 	}
+	if c.Server {
+		return fmt.Sprintf("%s | %d interim, final %s, %s, %s, history %s, handler Content-Length %s, HEAD=%v", out, facts.interim, status, body, when, facts.history(), facts.handlerCL, c.Head), nil
+	}
 	return fmt.Sprintf("%s | %d interim, final %s, %s, %s, history %s, HEAD=%v", out, facts.interim, status, body, when, facts.history(), c.Head), nil
+}
+
+// c19ServeRspOps lets the real server request handling run the handler: a HEADERS frame with a
+// well-formed GET / HEAD request on a real quic.Stream (export shim mc/c19/inject; the stream's
+// sender takes the data as it is written), RawServerConn.handleRequestStream with the call
+// sequence as its request handler, and everything it does after the handler has returned. wire =
+// the bytes the server wrote on the stream.
+func c19ServeRspOps(c c19RspOpsCase, at string) (wire []byte, sentEarly bool, fail *explore.Fail) {
+	method := http.MethodGet
+	if c.Head {
+		method = http.MethodHead
+	}
+	blk := c19EncodeBlock([]c19Field{{":method", method}, {":scheme", "https"}, {":authority", "example.com"}, {":path", "/file"}}, false)
+	qstr, pump := quic.VerifC19NewPumpedStream(c19HeadersFrame(blk))
+	calls := 0
+	srv := &RawServerConn{
+		serverContext:  context.Background(),
+		maxHeaderBytes: c19WriterLimit,
+		decoder:        qpack.NewDecoder(),
+		logger:         slog.New(slog.DiscardHandler),
+		requestHandler: http.HandlerFunc(func(w http.ResponseWriter, r *http.Request) {
+			calls++
+			c.script(w.Header(), w.WriteHeader, func(b []byte) { w.Write(b) }, w.(http.Flusher).Flush, func() {})
+			sentEarly = w.(*responseWriter).headerWritten
+		}),
+	}
+	srv.rawConn = *newRawConn(quic.VerifC19Conn(), false, srv.onStreamsEmpty, nil, nil, nil)
+	srv.handleRequestStream(srv.rawConn.TrackStream(qstr))
+	_, reset, rest := quic.VerifC19Drain(qstr)
+	explore.Must(calls == 1, "the server did not run the handler for a well-formed %s request (%d calls)", method, calls)
+	if len(reset) != 0 {
+		return nil, false, explore.Failf("writer-response-server/stream-reset"+at, "the server reset the response stream (RESET_STREAM %#x) of a handler that returned normally", reset)
+	}
+	return append(append([]byte(nil), pump.Bytes()...), rest...), sentEarly, nil
+}
+
+// the calls part writer-response-server enumerates
+var c19RspSrvOps = []int{c19OpH103, c19OpH200, c19OpH204, c19OpW5, c19OpW4k, c19OpFlush, c19OpCL10, c19OpCL0, c19OpCLNil, c19OpCLBad}
+
+// trailer styles of part writer-response-server: none, declared X-T with the value set at the end
+var c19RspSrvTrailers = []int{0, 1}
+
+func c19RspSrvDecode(i int) c19RspOpsCase {
+	nctx := 2 * len(c19RspSrvTrailers)
+	ctx, j := i%nctx, i/nctx
+	l, pow := 0, 1
+	for j >= pow {
+		j -= pow
+		pow *= len(c19RspSrvOps)
+		l++
+	}
+	ops := make([]int, l)
+	for p := l - 1; p >= 0; p-- {
+		ops[p] = c19RspSrvOps[j%len(c19RspSrvOps)]
+		j /= len(c19RspSrvOps)
+	}
+	return c19RspOpsCase{Ops: ops, Head: ctx%2 == 1, Trailer: c19RspSrvTrailers[ctx/2], Server: true}
+}
+
+func c19RspSrvPart() explore.Part {
+	return explore.Part{
+		Name: "writer-response-server",
+		Run: func(e explore.Env) *explore.Report {
+			maxLen := c19Tier(e, 4, 5)
+			n, pow := 0, 1
+			for l := 0; l <= maxLen; l++ {
+				n += pow
+				pow *= len(c19RspSrvOps)
+			}
+			n *= 2 * len(c19RspSrvTrailers)
+			col := newC19Collector()
+			outs := &c19Outcomes{}
+			rep := explore.RunCases(e, n, 0, true, func(i int) explore.CaseResult {
+				c := c19RspSrvDecode(i)
+				var out string
+				f := c19Guard(func() (f *explore.Fail) { out, f = c19RunRspOps(c); return f })
+				if f != nil {
+					col.add(i, f, c, c.human())
+				} else {
+					outs.add(out)
+				}
+				return explore.CaseResult{Fail: f, Execs: 1, Trans: 1}
+			})
+			col.finish(rep)
+			outs.into(rep)
+			rep.Rule = "every sequence of handler calls over {WriteHeader(103), WriteHeader(200), WriteHeader(204), Write(5 bytes), Write(4096 bytes), Flush(), Header().Set(Content-Length, 10), Header().Set(Content-Length, 0), Header()[Content-Length] = nil, Header().Set(Content-Length, abc)} up to the length bound (the empty handler included) x {GET, HEAD} x {no trailers, declared trailer}, each as the request handler of the real RawServerConn.handleRequestStream on a real quic.Stream holding a well-formed request, so that what the server does after the handler has returned (automatic Content-Length, Flush, trailers, stream end) is part of the response; the stream is read back by the real RequestStream.ReadResponse + body Read (-> decodeTrailers) and compared with the message net/http's ResponseWriter contract assigns to the call sequence"
+			rep.Bound = fmt.Sprintf("%d handler call sequences: 0<=len<=%d over %d calls x 2 methods x %d trailer styles", n, maxLen, len(c19RspSrvOps), len(c19RspSrvTrailers))
+			for _, i := range []int{n - 1, n / 2, n / 3} {
+				rep.Samples = append(rep.Samples, c19RspSrvDecode(i).human())
+			}
+			return rep
+		},
+		Replay: func(e explore.Env, raw json.RawMessage) *explore.Violation {
+			var c c19RspOpsCase
+			explore.Must(json.Unmarshal(raw, &c) == nil, "bad replay %s", raw)
+			f := c19Guard(func() (f *explore.Fail) { _, f = c19RunRspOps(c); return f })
+			if f == nil {
+				return nil
+			}
+			return &explore.Violation{Key: f.Key, What: f.What, Replay: raw, Human: c.human()}
+		},
+	}
 }
 
 // case index -> case: sequences ordered by length, then lexicographically; the six contexts of a
@@ -318,13 +558,13 @@ func c19RspOpsDecode(i int) c19RspOpsCase {
 	l, pow := 0, 1
 	for j >= pow {
 		j -= pow
-		pow *= len(c19RspOps)
+		pow *= c19RspOpsBase
 		l++
 	}
 	ops := make([]int, l)
 	for p := l - 1; p >= 0; p-- {
-		ops[p] = j % len(c19RspOps)
-		j /= len(c19RspOps)
+		ops[p] = j % c19RspOpsBase
+		j /= c19RspOpsBase
 	}
 	return c19RspOpsCase{Ops: ops, Head: ctx%2 == 1, Trailer: c19RspOpsTrailers[ctx/2]}
 }
@@ -337,7 +577,7 @@ func c19RspOpsPart() explore.Part {
 			n, pow := 0, 1
 			for l := 0; l <= maxLen; l++ {
 				n += pow
-				pow *= len(c19RspOps)
+				pow *= c19RspOpsBase
 			}
 			n *= 2 * len(c19RspOpsTrailers)
 			col := newC19Collector()
@@ -356,7 +596,7 @@ func c19RspOpsPart() explore.Part {
 			col.finish(rep)
 			outs.into(rep)
 			rep.Rule = "every sequence of handler calls over {WriteHeader(103), WriteHeader(200), WriteHeader(404), WriteHeader(204), Write(5 bytes), Write(4096 bytes), Flush(), Header().Add(X-B), Header().Add(Trailer, X-V) = a further trailer announced, Header().Set(X-V)} up to the length bound x {GET, HEAD} x {no trailers, declared trailer, TrailerPrefix trailer}, each on a fresh real responseWriter followed by the server's Flush + flushTrailers; the stream is read back by the real RequestStream.ReadResponse + body Read (-> decodeTrailers) and compared with the message net/http's ResponseWriter contract assigns to the call sequence"
-			rep.Bound = fmt.Sprintf("%d handler call sequences: 0<=len<=%d over %d calls x 2 methods x %d trailer styles", n, maxLen, len(c19RspOps), len(c19RspOpsTrailers))
+			rep.Bound = fmt.Sprintf("%d handler call sequences: 0<=len<=%d over %d calls x 2 methods x %d trailer styles", n, maxLen, c19RspOpsBase, len(c19RspOpsTrailers))
 			for _, i := range []int{n - 1, n / 2, n / 3} {
 				rep.Samples = append(rep.Samples, c19RspOpsDecode(i).human())
 			}
